@@ -28,6 +28,7 @@
 #include <stdlib.h>
 #include <string.h>
 #include "vnacal_new_internal.h"
+#include "vnaproperty_internal.h"
 
 
 /*
@@ -49,7 +50,7 @@ void vnacal_free(vnacal_t *vcp)
 	free((void *)vcp->vc_calibration_vector);
 	vcp->vc_calibration_vector = NULL;
 	vcp->vc_calibration_allocation = 0;
-	(void)vnaproperty_delete(&vcp->vc_properties, ".");
+	_vnaproperty_delete_all(&vcp->vc_properties);
 	assert(vcp->vc_properties == NULL);
 	_vnacal_teardown_parameter_collection(vcp);
 	vcp->vc_magic = -1;
